@@ -181,7 +181,7 @@ def fieldWritesUrl : List (String × String) := [
 
 def fieldWritesCanon : List (String × String) := []
 
-def baseUrlUses : List String := ["*ast.AssignStmt"]
+def baseUrlUses : List String := ["baseUrl != nil", "baseUrl.Clone()"]
 
 def spMethods : List (String × Bool × Bool) := [
   ("Append", true, true),
@@ -204,6 +204,8 @@ def callees : List (String × List String) := [
   ("Parse", ["defaultParser.Parse"]),
   ("ParseRef", ["defaultParser.ParseRef"]),
   ("path.clone", ["make", "len", "copy"]),
+  ("SearchParams.Sort", ["sort.SliceStable", "s.update"]),
+  ("SearchParams.SortAbsolute", ["sort.SliceStable", "s.update"]),
   ("SearchParams.Clone", ["make", "len"]),
   ("Url.SetSearch", ["u.path.stripTrailingSpacesIfOpaque", "strings.TrimPrefix", "new", "u.parser.BasicParser", "u.newUrlSearchParams", "u.searchParams.init"]),
   ("Url.SearchParams", ["u.newUrlSearchParams"]),
